@@ -375,7 +375,9 @@ func AddSegStatsStr(segstats map[string]*SegStats, cname string, strVal string,
 		segstats[cname] = stats
 	}
 
-	floatVal, err := strconv.ParseFloat(strVal, 64)
+	// same rule as the ingest-time statistics (addSegStatsStrIngestion), so that stats answered from
+	// the .sst file and stats recomputed from the raw records treat the same strings as numbers
+	floatVal, err := utils.FastParseFloat([]byte(strVal))
 	if err == nil {
 		AddSegStatsNums(segstats, cname, SS_FLOAT64, 0, 0, floatVal, bb, aggColUsage, hasValuesFunc, hasListFunc, hasPercFunc)
 		return
